@@ -103,4 +103,46 @@ TEXTS = {
                       "correspondence run only (244 of 300 quick histories are compared to the end, the others up to the first file-set "
                       "operation / move between models). " + 'Partial: frame theorems cover 11 operations; the two late-failure sites are documented, not proved unreachable.',
     },
+    "C01": {
+        "design_ref": 'DESIGN.md §8 C01',
+        "technique": "Lean 4 theorems about the value layer, the tokenizer and the parser's error discipline; oracle run on the real loader/serializer over specification-derived, grammar-directed and defect-injected documents",
+        "level_text": "Proved for all inputs: every string / u64 / enumeration item survives write+read; the escaped form of any string contains no '<' so the tokenizer reads it back as one character run; all-blank runs produce no event; a comment event carries exactly the bytes between the delimiters; both modes agree on values. The element-level statement (model equality after load-serialize-load in all versions and modes) is checked on the real library with an independent XML reader as oracle: partial.",
+        "level_note": "Trusted: Lean kernel; axioms propext, Classical.choice, Quot.sound. " + 'The element-level parser/serializer have no Lean model; known findings c01:* are replayed on every run.',
+    },
+    "C08": {
+        "design_ref": 'DESIGN.md §8 C08, Appendix D.4',
+        "technique": "Lean 4 theorems about the value layer, the tokenizer and the parser's error discipline; oracle run on the real loader/serializer over specification-derived, grammar-directed and defect-injected documents",
+        "level_text": "Proved for ALL computations built from the parser's three primitives (optional_error as the only reader of `strict`, hard error, sequencing): lenient without warnings => strict identical; lenient with warnings => strict fails with the first warning. Instantiated for parse_character_data + unescape_string for all byte strings and value specs. The element-level parser and the list of documented constraints are checked on the real library with injected defects of 20 classes in both modes: partial.",
+        "level_note": "Trusted: Lean kernel; axioms propext, Classical.choice, Quot.sound. " + 'parse_element is not yet written in the monad; known finding c08:empty-short-name-accepted.',
+    },
+    "C09": {
+        "design_ref": 'DESIGN.md §8 C09',
+        "technique": 'Lean 4 theorems about the specification of merging (union of projections, attribution, order independence) over an abstract master model; oracle run on the real loader over random masters, all splits at splittable points and all load orders',
+        "level_text": "Proved for every master, split and file order: the union of the per-file views is exactly the master, does not depend on the order of the files, and a file's view contains an element exactly if the element is attributed to the file. The positional merge algorithm is compared with this specification on the real library (all load orders, per-file reload, conflicts rejected): partial.",
+        "level_note": "Trusted: Lean kernel; axioms propext, Classical.choice, Quot.sound. " + 'merge_element / calc_*_merge / import_new_items have no Lean model; four known findings c09:*.',
+    },
+    "C10": {
+        "design_ref": 'DESIGN.md §8 C10',
+        "technique": 'Lean 4 theorems about an executable model of the element tree / file sets / copy / sort and its operations; differential run of the model against the library on operation histories with full state dumps; direct property oracle on the library',
+        "level_text": "Proved for all chains: an element without a local file set has its parent's effective set, one with a local set has that set, and every element below a root that belongs to a file has a non-empty effective set (nothing can be lost on write for lack of a file). Containment, self-contained files and remove_file are checked on the real library (files histories, merge scenario): partial.",
+        "level_note": "Trusted: Lean kernel; axioms propext, Classical.choice, Quot.sound. " + 'add_to_file / remove_from_file / remove_file are not in the Lean model yet.',
+    },
+    "C12": {
+        "design_ref": 'DESIGN.md §8 C12',
+        "technique": 'Lean 4 theorems about an executable model of the element tree / file sets / copy / sort and its operations; differential run of the model against the library on operation histories with full state dumps; direct property oracle on the library',
+        "level_text": 'Proved: the specification tables the lookups index into are in range and of bounded nesting (regenerated obligations); tokenising is total; every modelled operation is a total function, on error with the world unchanged; a lock program that passes runsAlone never blocks a single thread. `Never panics / blocks` of the real code is an oracle matter (catch_unwind and watchdog around every request of every history): partial.',
+        "level_note": "Trusted: Lean kernel; axioms propext, Classical.choice, Quot.sound. " + 'Known finding c12:move-to-ancestor-parent-locked. Stack depth outside the model.',
+    },
+    "C13": {
+        "design_ref": 'DESIGN.md §8 C13',
+        "technique": 'Lean 4 theorems about an executable model of the element tree / file sets / copy / sort and its operations; differential run of the model against the library on operation histories with full state dumps; direct property oracle on the library',
+        "level_text": 'Proved for all inputs: the copy of a node gets a fresh identity and the destination as parent, keeps name, type and comment and has no local file set; non-enumeration values are never dropped by the version filter; a refused copy changes nothing. Whole-subtree equality, registration and independence are checked by the copy histories (model comparison for same-model copies; oracle on the real library incl. duplicate()): partial.',
+        "level_note": "Trusted: Lean kernel; axioms propext, Classical.choice, Quot.sound. " + 'Copies between models and duplicate() are oracle-only.',
+    },
+    "C14": {
+        "design_ref": 'DESIGN.md §8 C14',
+        "technique": 'Lean 4 theorems about an executable model of the element tree / file sets / copy / sort and its operations; differential run of the model against the library on operation histories with full state dumps; direct property oracle on the library',
+        "level_text": 'Proved for an arbitrary comparison: sorting is a permutation (nothing lost or duplicated); with a total preorder it is idempotent and leaves sorted lists alone; if different siblings never tie the result is independent of the previous order; the index-path key is a total order. `sort` requests are answered by the Lean model of ElementRaw::sort / Ord for Element and compared with the library.',
+        "level_note": "Trusted: Lean kernel; axioms propext, Classical.choice, Quot.sound. " + 'Assumes Element ordering is a total preorder (it was cyclic before the repair of finding #6).',
+    },
 }
